@@ -26,6 +26,11 @@ def catalogue():
         props = m.get('caught_by') or [m['property']]
         items.append({'name': 'seeded/' + os.path.basename(d), 'patch': os.path.join(d, 'patch.diff'),
                       'props': props, 'expect': m.get('expect', 'caught')})
+    for meta in sorted(glob.glob(os.path.join(HERE, 'benign', '*', 'meta.json'))):
+        d = os.path.dirname(meta)
+        m = json.load(open(meta))
+        items.append({'name': 'benign/' + os.path.basename(d), 'patch': os.path.join(d, 'patch.diff'),
+                      'props': m.get('props') or [m['property']], 'expect': 'held'})
     for patch in sorted(glob.glob(os.path.join(HERE, 'selftest', '*.diff'))):
         base = os.path.basename(patch)
         items.append({'name': 'selftest/' + base, 'patch': patch, 'props': [base.split('-')[0].upper()],
@@ -52,6 +57,9 @@ def run_one(item, repo, tier='quick'):
             res.append({'property': prop, 'rc': p.returncode, 'caught': caught, 'wall_s': round(time.time() - t0, 1),
                         'first': first[:300]})
         caught_any = any(r['caught'] for r in res)
+        if item['expect'] == 'held':   # behaviour-preserving change: every check must exit 0
+            ok = all(r['rc'] == 0 for r in res)
+            return {'name': item['name'], 'outcome': 'held' if ok else 'ALARM-ON-BENIGN-CHANGE', 'runs': res}
         return {'name': item['name'], 'outcome': 'caught' if caught_any else 'MISSED', 'runs': res}
     finally:
         shutil.rmtree(tmp, ignore_errors=True)
@@ -69,7 +77,8 @@ def main(argv=None):
     with ThreadPoolExecutor(max_workers=jobs) as pool:
         for item, r in zip(items, pool.map(lambda it: run_one(it, repo), items)):
             results.append(r)
-            ok = (r['outcome'] == 'caught') == (item['expect'] == 'caught')
+            ok = (r['outcome'] == item['expect']) if item['expect'] == 'held' else \
+                ((r['outcome'] == 'caught') == (item['expect'] == 'caught'))
             if not ok:
                 missed += 1
             print('%-60s %s %s%s' % (r['name'], r['outcome'],
